@@ -653,7 +653,7 @@ fn words_24(buf: &[u8; 24], len: usize) -> [u64; 3] {{
             f"the name followed by a blank are not found (unless such a string is itself listed)",
             "\n".join(body),
             ["palette::named::from_str", "palette::named::COLORS (phf map, named/codegen.rs)"],
-            f"{len(grp)} names x (1 lookup + up to 4 near misses), concrete strings", unwind=longest + 4, thorough=True)
+            f"{len(grp)} names x (1 lookup + up to 4 near misses), concrete strings", unwind=longest + 4, thorough=False)
 
 
 def gen():
